@@ -958,7 +958,7 @@ static const yytype_int16 yyrline[] =
     2392,  2402,  2417,  2416,  2429,  2430,  2435,  2468,  2493,  2549,
     2556,  2562,  2568,  2578,  2582,  2590,  2602,  2616,  2623,  2630,
     2655,  2667,  2679,  2691,  2706,  2718,  2733,  2776,  2797,  2832,
-    2867,  2901,  2926,  2943,  2953,  2963,  2973,  2983,  3003,  3023
+    2867,  2901,  2933,  2957,  2967,  2977,  2987,  2997,  3017,  3037
 };
 #endif
 
@@ -5100,14 +5100,21 @@ yyreduce:
         if ((yyvsp[-2].expression).type == EXPRESSION_TYPE_INTEGER &&
             (yyvsp[0].expression).type == EXPRESSION_TYPE_INTEGER)
         {
-          if ((yyvsp[0].expression).value.integer != 0)
+          if ((yyvsp[0].expression).value.integer == 0)
           {
-            (yyval.expression).value.integer = OPERATION(/, (yyvsp[-2].expression).value.integer, (yyvsp[0].expression).value.integer);
+            result = ERROR_DIVISION_BY_ZERO;
+          }
+          else if ((yyvsp[-2].expression).value.integer == INT64_MIN && (yyvsp[0].expression).value.integer == -1)
+          {
+            // INT64_MIN \ -1 overflows (and traps on some CPUs), the result
+            // is undefined as it is when computed at scan time.
+            (yyval.expression).value.integer = YR_UNDEFINED;
             (yyval.expression).type = EXPRESSION_TYPE_INTEGER;
           }
           else
           {
-            result = ERROR_DIVISION_BY_ZERO;
+            (yyval.expression).value.integer = OPERATION(/, (yyvsp[-2].expression).value.integer, (yyvsp[0].expression).value.integer);
+            (yyval.expression).type = EXPRESSION_TYPE_INTEGER;
           }
         }
         else
@@ -5117,32 +5124,39 @@ yyreduce:
 
         fail_if_error(result);
       }
-#line 5121 "libyara/grammar.c"
+#line 5128 "libyara/grammar.c"
     break;
 
   case 162: /* primary_expression: primary_expression '%' primary_expression  */
-#line 2927 "libyara/grammar.y"
+#line 2934 "libyara/grammar.y"
       {
         check_type((yyvsp[-2].expression), EXPRESSION_TYPE_INTEGER, "%");
         check_type((yyvsp[0].expression), EXPRESSION_TYPE_INTEGER, "%");
 
         fail_if_error(yr_parser_emit(yyscanner, OP_MOD, NULL));
 
-        if ((yyvsp[0].expression).value.integer != 0)
+        if ((yyvsp[0].expression).value.integer == 0)
         {
-          (yyval.expression).value.integer = OPERATION(%, (yyvsp[-2].expression).value.integer, (yyvsp[0].expression).value.integer);
+          fail_if_error(ERROR_DIVISION_BY_ZERO);
+        }
+        else if ((yyvsp[-2].expression).value.integer == INT64_MIN && (yyvsp[0].expression).value.integer == -1)
+        {
+          // INT64_MIN % -1 overflows (and traps on some CPUs), the result
+          // is undefined as it is when computed at scan time.
+          (yyval.expression).value.integer = YR_UNDEFINED;
           (yyval.expression).type = EXPRESSION_TYPE_INTEGER;
         }
         else
         {
-          fail_if_error(ERROR_DIVISION_BY_ZERO);
+          (yyval.expression).value.integer = OPERATION(%, (yyvsp[-2].expression).value.integer, (yyvsp[0].expression).value.integer);
+          (yyval.expression).type = EXPRESSION_TYPE_INTEGER;
         }
       }
-#line 5142 "libyara/grammar.c"
+#line 5156 "libyara/grammar.c"
     break;
 
   case 163: /* primary_expression: primary_expression '^' primary_expression  */
-#line 2944 "libyara/grammar.y"
+#line 2958 "libyara/grammar.y"
       {
         check_type((yyvsp[-2].expression), EXPRESSION_TYPE_INTEGER, "^");
         check_type((yyvsp[0].expression), EXPRESSION_TYPE_INTEGER, "^");
@@ -5152,11 +5166,11 @@ yyreduce:
         (yyval.expression).type = EXPRESSION_TYPE_INTEGER;
         (yyval.expression).value.integer = OPERATION(^, (yyvsp[-2].expression).value.integer, (yyvsp[0].expression).value.integer);
       }
-#line 5156 "libyara/grammar.c"
+#line 5170 "libyara/grammar.c"
     break;
 
   case 164: /* primary_expression: primary_expression '&' primary_expression  */
-#line 2954 "libyara/grammar.y"
+#line 2968 "libyara/grammar.y"
       {
         check_type((yyvsp[-2].expression), EXPRESSION_TYPE_INTEGER, "^");
         check_type((yyvsp[0].expression), EXPRESSION_TYPE_INTEGER, "^");
@@ -5166,11 +5180,11 @@ yyreduce:
         (yyval.expression).type = EXPRESSION_TYPE_INTEGER;
         (yyval.expression).value.integer = OPERATION(&, (yyvsp[-2].expression).value.integer, (yyvsp[0].expression).value.integer);
       }
-#line 5170 "libyara/grammar.c"
+#line 5184 "libyara/grammar.c"
     break;
 
   case 165: /* primary_expression: primary_expression '|' primary_expression  */
-#line 2964 "libyara/grammar.y"
+#line 2978 "libyara/grammar.y"
       {
         check_type((yyvsp[-2].expression), EXPRESSION_TYPE_INTEGER, "|");
         check_type((yyvsp[0].expression), EXPRESSION_TYPE_INTEGER, "|");
@@ -5180,11 +5194,11 @@ yyreduce:
         (yyval.expression).type = EXPRESSION_TYPE_INTEGER;
         (yyval.expression).value.integer = OPERATION(|, (yyvsp[-2].expression).value.integer, (yyvsp[0].expression).value.integer);
       }
-#line 5184 "libyara/grammar.c"
+#line 5198 "libyara/grammar.c"
     break;
 
   case 166: /* primary_expression: '~' primary_expression  */
-#line 2974 "libyara/grammar.y"
+#line 2988 "libyara/grammar.y"
       {
         check_type((yyvsp[0].expression), EXPRESSION_TYPE_INTEGER, "~");
 
@@ -5194,11 +5208,11 @@ yyreduce:
         (yyval.expression).value.integer = ((yyvsp[0].expression).value.integer == YR_UNDEFINED) ?
             YR_UNDEFINED : ~((yyvsp[0].expression).value.integer);
       }
-#line 5198 "libyara/grammar.c"
+#line 5212 "libyara/grammar.c"
     break;
 
   case 167: /* primary_expression: primary_expression "<<" primary_expression  */
-#line 2984 "libyara/grammar.y"
+#line 2998 "libyara/grammar.y"
       {
         int result;
 
@@ -5218,11 +5232,11 @@ yyreduce:
 
         fail_if_error(result);
       }
-#line 5222 "libyara/grammar.c"
+#line 5236 "libyara/grammar.c"
     break;
 
   case 168: /* primary_expression: primary_expression ">>" primary_expression  */
-#line 3004 "libyara/grammar.y"
+#line 3018 "libyara/grammar.y"
       {
         int result;
 
@@ -5242,19 +5256,19 @@ yyreduce:
 
         fail_if_error(result);
       }
-#line 5246 "libyara/grammar.c"
+#line 5260 "libyara/grammar.c"
     break;
 
   case 169: /* primary_expression: regexp  */
-#line 3024 "libyara/grammar.y"
+#line 3038 "libyara/grammar.y"
       {
         (yyval.expression) = (yyvsp[0].expression);
       }
-#line 5254 "libyara/grammar.c"
+#line 5268 "libyara/grammar.c"
     break;
 
 
-#line 5258 "libyara/grammar.c"
+#line 5272 "libyara/grammar.c"
 
       default: break;
     }
@@ -5478,5 +5492,5 @@ yyreturnlab:
   return yyresult;
 }
 
-#line 3029 "libyara/grammar.y"
+#line 3043 "libyara/grammar.y"
 
